@@ -651,6 +651,12 @@ class Lowerer:
                 kl = cls_of_type(base['type']['qualType'])
                 mname = callee['name']
                 args = n['inner'][1:]
+                if kl == 'vstream' and bb.get('kind') == 'DeclRefExpr' and bb.get('referencedDecl', {}).get('name') in ('cerr', 'cout', 'clog'):
+                    s, e, m, _ = need_nomacro(n, 'console stream call')
+                    ed.add(s, e, '(void)0')
+                    self.dropped.append((fqual, 'console stream call: ' + ' '.join(text[s:e].split())[:80]))
+                    note('drop-stream-stmt')
+                    return
                 if mname.startswith('~') or mname.startswith('operator'):
                     raise LowerError('%s: call of %s outside subset' % (qual, mname))
                 lname = '%s__%s' % (kl, mname)
